@@ -344,7 +344,8 @@ def validate_monitor(ctx, trace, what, parallel=None):
                 elif nd["kind"] in ("state", "order"):
                     nd["got"] = ev.get("leaves")
                 # the op list of the history up to this line makes the deviation re-executable
-                nd["ops"] = [{"a": e["a"], "k": e["k"], "v": e["v"]} for e in (ev_at(i) for i in range(hstart + 1, line + 1))]
+                nd["ops"] = [{"a": e["a"], "k": e["k"], "v": e["v"]} if e["e"] == "op" else {"a": "rebase", "k": [], "v": len(e["leaves"])}
+                             for e in (ev_at(i) for i in range(hstart + 1, line + 1))]
                 devs.append(nd)
     for p, _, _ in chunks:
         try:
@@ -372,13 +373,16 @@ def run_trace(ctx, binary, cov, devs):
             if e["e"] == "cfg":
                 fan[e["m"]] += 1
                 continue
+            if e["e"] == "rebase":
+                kinds["rebase:m=%d" % e["m"]] += 1
+                continue
             kinds[e["a"] + ("" if e["ok"] else ":panic")] += 1
             qn += len(e["q"])
             maxnodes = max(maxnodes, len(e["nodes"]))
             if len(samples) < 2 and i > 3:
                 e2 = dict(e, q=e["q"][:4], note="battery truncated in this sample")
                 samples.append({"trace_event": e2})
-    for need in ("set", "inc", "dec", "rem", "open"):
+    for need in ("set", "inc", "dec", "rem", "open", "rebase:m=255", "rebase:m=254"):
         if kinds[need] == 0:
             raise Infra("recorder produced no successful %s: driver is not exercising the property" % need)
     if maxnodes < 4:
